@@ -208,6 +208,8 @@ def run_pair(integ, names, props, ns, nreal, nghost, events_g, events_r,
     # ---- generated (lowered) integrator with the real python methods
     IC = ns["Integrator"]
     obj = IC.__new__(IC)
+    # cdef double attributes are zero-initialised in C
+    obj.t = obj.dt = obj.orig_t = 0.0
     for n in names:
         setattr(obj, n, wg[n])
         SC = ns[type(integ.steppers[n]).__name__]
